@@ -365,9 +365,9 @@ def _parse_output(r):
     m = re.search(r"Error: Invariant (\S+) is violated", out)
     if m:
         r.violated = m.group(1)
-    m = re.search(r"Error: Action property (\S+) is violated", out)
+    m = re.search(r"Error: Action property (.*) is violated", out)
     if m:
-        r.violated = m.group(1)
+        r.violated = "action-property " + m.group(1)[:80]
     if "Error: Temporal properties were violated" in out:
         r.violated = "temporal"
     m = re.search(r"Error: Deadlock reached", out)
